@@ -379,6 +379,18 @@ def make_box_compatible(plan):
             ts = list(t) if isinstance(t, list) else [t] * len(lo)
             ts = [min(max(v, a), c) for v, a, c in zip(ts, lo, hi)]
             l['kw']['target'] = ts[0] if all(v == ts[0] for v in ts) and not isinstance(t, list) else ts
+    # moving targets into the box can make two conditions textually identical (mystic keys collapses by the condition's doc)
+    seen = set()
+    def dedupe(t):
+        if t['t'] in ('And', 'Or', 'When'):
+            kids = [k for k in (dedupe(k) for k in t['of']) if k is not None]
+            return dict(t, of=kids) if kids else None
+        if t['t'].startswith('Collapse'):
+            k = repr((t['t'], sorted(t['kw'].items(), key=repr)))
+            if k in seen: return None
+            seen.add(k)
+        return t
+    plan['tree'] = dedupe(plan['tree'])
 
 def gen_plan(seed, tier):
     rng = sub_rng(seed, 'plan.c11')
@@ -836,6 +848,8 @@ class CollapseOracle(object):
                 # every weight of that measure collapsed: no normalised measure satisfies that, nothing to demand
                 m = r['m']; npts = self.npts; o = 2 * sum(npts[:m])
                 zero = set(q['i'] for q in rels if q['kind'] == 'w0')
+                # (a position tie hands the weight of its second point to its first: the second point's weight is zero by definition)
+                zero |= set(q['j'] - npts[q['m']] for q in rels if q['kind'] == 'ptie')
                 if all((o + k) in zero for k in range(npts[m])): continue
                 # ... likewise when every OTHER weight of the measure is already zero (masked by the user or collapsed)
                 if all(x[o + k] == 0.0 for k in range(npts[m]) if (o + k) != r['i']): continue
